@@ -1909,6 +1909,15 @@ func (ss *ServerSession) handle(ctx context.Context, req *jsonrpc.Request) (any,
 				Message: fmt.Sprintf("%q is not supported in the new protocol", req.Method),
 			}
 		}
+		switch req.Method {
+		case notificationRootsListChanged, methodSetLevel, methodSubscribe, methodUnsubscribe:
+			// Unlike the lifecycle methods above, these are ordinary feature
+			// methods: they are not served before the session is initialized.
+			if !initialized {
+				ss.server.opts.Logger.Error("method invalid during initialization", "method", req.Method)
+				return nil, fmt.Errorf("method %q is invalid during session initialization", req.Method)
+			}
+		}
 	case methodDiscover:
 		// In case of methodDiscover call the state.initializeParams is populated
 		// within the discover handle function to make sure the method is supported
